@@ -1,0 +1,15 @@
+//go:build verif
+
+package verify
+
+import "crypto/x509"
+
+// VerifSwapEmbeddedRoot replaces the certificate that serves as the default root of trust (the one used when
+// Options.TrustedRoots is nil) and returns the previous one. It exists for the runtime monitors under /verif, which
+// run their generated PKIs through the default-root code path with it; it is not part of the build without the
+// "verif" tag.
+func VerifSwapEmbeddedRoot(root *x509.Certificate) *x509.Certificate {
+	prev := trustedRootCertificate
+	trustedRootCertificate = root
+	return prev
+}
